@@ -233,7 +233,8 @@ def containerPrefix : String := "container:"
 def linkDeps (links : List Val) : List (String × Val) :=
   links.map fun l => (linkTarget (strOf l), depEntry true)
 
-/-- the dependency a `service:<name>` namespace reference stands for -/
+/-- the dependency a `service:<name>` namespace reference stands for (`ref, _ := n.(string)`: a value that
+is not a string — e.g. the `null` of an empty `pid:` — reads as the empty string and stands for none) -/
 def nsDep (s : KVs) (ns : String) : Option (String × Val) :=
   match lookup ns s with
   | some (.str ref) => if hasPrefix servicePrefix ref then some (dropPrefix servicePrefix ref, depEntry true) else none
@@ -308,12 +309,6 @@ def shapeVolume : Val → Bool
     | _ => false
   | _ => false
 
-def shapeNamespace (s : KVs) (ns : String) : Bool :=
-  match lookup ns s with
-  | none => true
-  | some (.str _) => true
-  | some _ => false
-
 def shapeService : Val → Bool
   | .map s =>
     (match lookup "build" s with
@@ -328,7 +323,6 @@ def shapeService : Val → Bool
      | none => true
      | some (.seq l) => l.all isStr
      | some _ => false) &&
-    namespaces.all (shapeNamespace s) &&
     (match lookup "volumes" s with
      | none => true
      | some (.seq l) => l.all shapeVolume
